@@ -258,6 +258,46 @@ def case_multi(rec, c):
 PARAMS_ALL = PARAMS
 
 
+def case_template(rec, c):
+    """The object handed to sys.potential[...] is copied by the table: changing the caller's object afterwards (any numeric
+    attribute) must not change what createPRISM wires into the closure."""
+    import pyPRISM
+    name, p, sigma, kT = c['cls'], c['params'], c['sigma'], 1.3
+    L, dr = 96, 0.1
+    s_ = pyPRISM.System(['A'], kT=kT)
+    s_.domain = build.make_domain({'length': L, 'dr': dr})
+    if not build.domain_ok(s_.domain):
+        rec.count('skipped_preconditions')
+        return
+    s_.density['A'] = 0.3
+    s_.diameter['A'] = 1.0
+    s_.closure['A', 'A'] = pyPRISM.closure.PercusYevick()
+    s_.omega['A', 'A'] = pyPRISM.omega.SingleSite()
+    U = build.make_potential([name, dict(p, sigma=sigma)])
+    s_.potential['A', 'A'] = U
+    rec.state()
+    changed = []
+    for attr, val in sorted(vars(U).items()):
+        if isinstance(val, bool) or not isinstance(val, (int, float)):
+            continue
+        setattr(U, attr, val * 1.37 + 0.11)
+        changed.append(attr)
+    rec.trans()
+    try:
+        with warnings.catch_warnings():
+            warnings.simplefilter('ignore')
+            P = s_.createPRISM()
+    except Exception as e:
+        rec.fail(c, 'createPRISM raised %s after the caller changed its own potential object: %s' % (type(e).__name__, str(e)[:80]), tags(name, 'raises'))
+        return
+    got = np.array(P.sys.closure['A', 'A'].potential, dtype=float) * kT
+    r = np.asarray(P.sys.domain.r)
+    compare(rec, dict(c, changed=changed), name, p, r, sigma, got,
+            'closure.potential*kT after the caller changed %s on the object it had assigned to sys.potential earlier' % ', '.join(changed))
+    rec.trace()
+    rec.outcome(core.digest([name, p, sigma, 'template']))
+
+
 def case_wire(rec, c):
     """sigma defaulting and wiring through createPRISM for one pair of diameters."""
     name, p, (L, dr), (dA, dB), kT = c['cls'], c['params'], c['grid'], c['diam'], c['kT']
@@ -304,7 +344,7 @@ def case_wire(rec, c):
 def replay(rec, case):
     with warnings.catch_warnings():
         warnings.simplefilter('ignore')
-        {'eval': case_eval, 'wire': case_wire, 'hist': case_hist, 'multi': case_multi}[case['kind']](rec, case)
+        {'eval': case_eval, 'wire': case_wire, 'hist': case_hist, 'multi': case_multi, 'template': case_template}[case['kind']](rec, case)
 
 
 def sigmas_for(dr, count):
@@ -319,7 +359,11 @@ def _worker(item):
     rec = Rec('C10')
     with warnings.catch_warnings():
         warnings.simplefilter('ignore')
-        if item[0] == 'multi':
+        if item[0] == 'template':
+            _, name, p = item
+            for sg in (0.9, 1.3):
+                case_template(rec, {'kind': 'template', 'cls': name, 'params': p, 'sigma': sg})
+        elif item[0] == 'multi':
             _, name, n = item
             for order in itertools.permutations(range(n)) if n <= 4 else [tuple(range(n)), tuple(reversed(range(n)))] + [tuple(list(range(i, n)) + list(range(i))) for i in range(1, n)]:
                 case_multi(rec, {'kind': 'multi', 'cls': name, 'sigma': 1.2, 'grid': [96, 0.1], 'order': list(order)})
@@ -369,6 +413,7 @@ def run(rec, tier, seed):
         items.append(('multi', name, len(PARAMS[name])))
         for p in params[name]:
             items.append(('hist', name, p, 3 if tier == 'quick' else 5))
+            items.append(('template', name, p))
     lat = [round(0.5 + 0.1 * i, 1) for i in range(36)]
     if tier == 'quick':
         lat = lat[:16]
